@@ -234,6 +234,7 @@ func (s *subject) apply(op Op) *panicInfo {
 		if pi := guard(func() { s.sel.Refresh(eps) }); pi != nil {
 			return pi
 		}
+		scribble(eps)
 	case "add":
 		if pi := guard(func() { _ = s.sel.Add(s.tab[op.E]) }); pi != nil {
 			return pi
@@ -539,4 +540,19 @@ func (m *model) rotation(cfg *Config) (mode string, counts []int, cycle int) {
 		cycle += c
 	}
 	return modeWeighted, counts, cycle
+}
+
+// scribble: the list handed to Refresh stays the caller's (the endpoint manager goes on removing from
+// and sorting its list in place); whatever the caller does to it afterwards is not an update of the
+// selector.  Every slot is overwritten with an endpoint that is in no set.
+func scribble(eps []endpoint.Endpoint) {
+	for i := range eps {
+		p := eps[i]
+		p.Host, p.Key = "poison.invalid", "poison.invalid:1"
+		eps[i] = p
+	}
+	// the spare capacity, too: an in-place filter would append there
+	for i, full := len(eps), eps[:cap(eps)]; i < len(full); i++ {
+		full[i].Host, full[i].Key = "poison.invalid", "poison.invalid:1"
+	}
 }
